@@ -1,4 +1,5 @@
 import GraphSlam.Model.Assembly
+import GraphSlam.Model.GraphIter
 import GraphSlam.Real.Instance
 import Mathlib.Logic.Function.Iterate
 
@@ -64,20 +65,13 @@ theorem fixed_unchanged (boxplus : P → (Nat → E) → P) (fixed : List Nat) (
     rw [Function.iterate_succ, Function.comp]
     exact ih _ (applyDx_fixed boxplus fixed s (solve s) k v hv hf)
 
-/-- the head of `optimize`: `fix_first_pose=True` fixes exactly the first listed vertex, `False` nothing
-    (`flags` are the vertices' `fixed` attributes in list order) -/
-def applyFixFirst (fixFirst : Bool) (flags : List Bool) : List Bool :=
-  if fixFirst then (match flags with | [] => [] | _ :: rest => true :: rest) else flags
+/-! the head of `optimize` (`Model.applyFixFirst`, `Model.fixedIndices`: the definitions the driver executes) -/
 
 theorem fix_first_pose_flags (fixFirst : Bool) (flags : List Bool) (k : Nat) :
     (applyFixFirst fixFirst flags)[k]? =
       if fixFirst = true ∧ k = 0 ∧ flags ≠ [] then some true else flags[k]? := by
   unfold applyFixFirst
   cases fixFirst <;> cases flags <;> cases k <;> simp
-
-/-- the set of fixed gradient indices computed at graph.py:433 -/
-def fixedIndices (flags : List Bool) (gidx : List Nat) : List Nat :=
-  ((flags.zip gidx).filter (·.1)).map (·.2)
 
 theorem mem_fixedIndices (flags : List Bool) (gidx : List Nat) (g : Nat) :
     g ∈ fixedIndices flags gidx ↔ ∃ k : Nat, flags[k]? = some true ∧ gidx[k]? = some g := by
